@@ -80,6 +80,7 @@ package tensor
 //@   ensures [plain_is_self] !old(isViewLike(t)) ==> asptr("tensor.Dense", result) == t
 //@   ensures [copy] old(isViewLike(t)) ==> typeis(result, "*tensor.Dense") && fresh(asptr("tensor.Dense", result)) && fresh(asptr("tensor.Dense", result).Raw)
 //@   ensures [source] t.Raw == old(t.Raw) && t.shape == old(t.shape) && t.strides == old(t.strides) && unchanged(t.shape) && unchanged(t.strides)
+//@   ensures [plain_result] typeis(result, "*tensor.Dense") && !isViewLike(asptr("tensor.Dense", result))
 //@   assigns nothing
 
 // ---- stacking: the storage-order fast path is only taken when no operand needs an iterator (C10) ----
@@ -113,3 +114,20 @@ package tensor
 //@   ensures [bad_axis] axis > n ==> err != nil
 //@   ensures [fast_path_only_for_plain] err == nil && gh("simplestack", asptr("tensor.Dense", retVal)) == 1 ==> old(!needsIter(d)) && (forall j :: 0 <= j && j < len(others) ==> old(!needsIter(asptr("tensor.Dense", others[j]))))
 //@   loop 1 invariant [scan] 0 <= _i && _i <= len(others) && err == nil && (allNoMat <==> (old(!needsIter(d)) && (forall j :: 0 <= j && j < _i ==> old(!needsIter(asptr("tensor.Dense", others[j]))))))
+
+// ---- reductions (C08): the reduction machinery folds storage positions, so it must be given a tensor whose storage
+// order is its logical content: views and lazily transposed tensors are materialised first ----
+
+//@ func tensor.StdEng.reduce
+//@   trusted
+//@   requires [materialised] typeis(a, "*tensor.Dense") ==> !isViewLike(asptr("tensor.Dense", a))
+//@   config frame any
+
+//@ schema eng_reduce match tensor.StdEng.{Op}
+//@   where Op in Sum Min Max
+//@   props C08
+//@   config devirt tensor.Tensor=*tensor.Dense,tensor.View=*tensor.Dense
+//@   config frame any
+//@   requires [dyn] typeis(a, "*tensor.Dense") && a.val != 0
+//@   requires [dims] forall i :: 0 <= i && i < len(asptr("tensor.Dense", a).shape) ==> asptr("tensor.Dense", a).shape[i] >= 0
+//@   ensures [ok] true
